@@ -28,3 +28,4 @@ pub assume_specification<T: Ord>[ <[T]>::binary_search ](s: &[T], x: &T) -> (r: 
         r matches Ok(i) ==> i < s@.len() && s@[i as int].cmp_spec(x) == core::cmp::Ordering::Equal,
         r matches Err(i) ==> i <= s@.len(),
         T::obeys_cmp_spec() && sorted_strict(s@) ==> (r is Ok <==> exists|k: int| 0 <= k < s@.len() && (#[trigger] s@[k]).cmp_spec(x) == core::cmp::Ordering::Equal);
+
